@@ -4,9 +4,9 @@ CHECK = dict(
     pkg="c08", level="exploration",
     rule="Part A (job prop): one evaluation = one generated history of 1-14 steps on ONE client and ONE layout - ImageCopy into the layout (from a model "
          "registry, another layout or the layout itself (re-tag); by tag / digest / as child; sparse via ImageWithPlatforms; with referrers / digest-tags / "
-         "force-recursive / include-external; source faults that make the copy fail midway or recover; Close(target) called from inside every k-th source request / "
+         "force-recursive / include-external; source faults that make the copy fail midway or recover, incl. failures while a blob is being WRITTEN (the source serves other bytes than the digest names, the context is cancelled right after a blob request was answered); Close(target) called from inside every k-th source request / "
          "progress callback of the running copy), hand-made pushes of a node's closure (complete, without blobs, without children; tagged / by digest / as child), "
-         "single manifest / blob puts, tag delete (plain tags and the referrers fallback tag), manifest delete (plain, check-referrers, with-manifest), planted "
+         "single manifest / blob puts (blob pushes also failing part-way for real: other bytes than the declared digest, reader error mid-stream, context cancelled mid-body, wrong declared size), tag delete (plain tags and the referrers fallback tag), manifest delete (plain, check-referrers, with-manifest), planted "
          "blobs/<alg>/*.tmp files and unreferenced blobs, Close, image export+import into the layout, BlobDelete, re-open with fresh clients; two client instances used one after the other; target references by tag / digest / tag@digest / without tag (default tag), Close references in the same four forms, the layout path spelled absolute / relative / ./relative (one spelling per case), Close of the source layout of a copy; ~30 % of the closes and ~15 % of the other operations are called with a context that is already cancelled, past its deadline or cancelled by another goroutine during the call (a dead context never widens what Close may delete; completeness is only demanded of closes with a live context) - over an imggen graph (nested indexes, shared layers, schema1, OCI "
          "artifact manifests with blobs[], blob-typed index entries, inline data, foreign layers, bodies without mediaType, sha512-addressed blobs and manifests) extended with a signed schema1 manifest, with sibling images sharing "
          "blobs and referrers (image / artifact / index with subject and own children, referrers of referrers, subjects stored nowhere), some addressed by sha512; "
@@ -30,7 +30,7 @@ CHECK = dict(
                "manifests at any depth -> config / layers / artifact blobs[] / schema1 fsLayers / blob-typed entries; referrers through their tagged fallback index) "
                "that was present and intact before is present and byte-identical after; index.json and oci-layout are untouched; (2) when the harness knows a "
                "collection was due (a write through this client succeeded since the last collection, no copy in flight, Close returned nil) the files under blobs/ "
-               "are exactly that set (unreachable content and *.tmp gone); (3) with GC disabled nothing changes at all. A Close issued from inside a source request "
+               "are exactly that set (unreachable content and *.tmp gone) and nothing else the client created lies ANYWHERE under the layout (whole-tree scan; only files the harness itself planted outside the algorithm directories are exempt); (3) with GC disabled nothing changes at all. A Close issued from inside a source request "
                "or progress callback of a running ImageCopy (the copy provably is in progress) removes nothing; no file seen at one instant of a copy is gone at a "
                "later instant of the same copy; what lies below the tag of a copy that returned nil - right after it wrote the tag and when it returned - is still "
                "there after all goroutines finished and a final due Close, which also must have collected (a GC lock that a failed copy did not release, or one it "
